@@ -20,6 +20,13 @@ class PredictionType(str, Enum):
     MAX = "max"
     MEAN = "mean"
 
+    @classmethod
+    def _missing_(cls, value):
+        # the documentation spells it ``last_known``
+        if isinstance(value, str) and "_" in value:
+            return cls(value.replace("_", "-"))
+        return None
+
 
 class ConstantPredictionAlgorithm(
     PersonalizeAlgorithm[ConstantModel, IndividualParameters]
